@@ -582,6 +582,10 @@ void Plan::ScheduleInitialEdges() {
     if (want == kWantToStart && edge->AllInputsReady()) {
       Pool* pool = edge->pool();
       if (pool->ShouldDelayEdge()) {
+        // Mark the edge as scheduled, exactly as ScheduleWork() does:
+        // otherwise a later EdgeMaybeReady() (e.g. from DyndepsLoaded())
+        // would schedule, and run, it a second time.
+        it->second = kWantToFinish;
         pool->DelayEdge(edge);
         pools.insert(pool);
       } else {
